@@ -119,6 +119,8 @@ fn parse(text: &str, allow_substvar: bool) -> Parse {
             self.skip_ws();
             self.builder.start_node(SyntaxKind::ENTRY.into());
             loop {
+                #[cfg(feature = "verif-hooks")]
+                deb822_lossless::verif::step();
                 self.parse_relation();
                 match self.peek_past_ws() {
                     Some(COMMA) => {
@@ -155,6 +157,11 @@ fn parse(text: &str, allow_substvar: bool) -> Parse {
         }
 
         fn error(&mut self, error: String) {
+            #[cfg(feature = "verif-hooks")]
+            {
+                deb822_lossless::verif::step();
+                deb822_lossless::verif::branch("relations:error");
+            }
             self.errors.push(error);
             self.builder.start_node(SyntaxKind::ERROR.into());
             if self.current().is_some() {
@@ -302,6 +309,8 @@ fn parse(text: &str, allow_substvar: bool) -> Parse {
             self.skip_ws();
 
             while self.current().is_some() {
+                #[cfg(feature = "verif-hooks")]
+                deb822_lossless::verif::step();
                 match self.current() {
                     Some(IDENT) => self.parse_entry(),
                     Some(DOLLAR) => {
@@ -346,6 +355,8 @@ fn parse(text: &str, allow_substvar: bool) -> Parse {
         }
         /// Advance one token, adding it to the current branch of the tree builder.
         fn bump(&mut self) {
+            #[cfg(feature = "verif-hooks")]
+            deb822_lossless::verif::step();
             let (kind, text) = self.tokens.pop().unwrap();
             self.builder.token(kind.into(), text.as_str());
         }
